@@ -6,6 +6,7 @@ CLAIMS = ("R1 State.generation is written only inside Membership methods and eve
           "R3 record_resolve_error writes neither peers nor resolved nor generation, and set_members is invoked by the server only on the Ok value of Discovery::resolve; "
           "R4 the keys inserted into peers derive from the incoming set that was filtered through !is_self; "
           "R5 members() builds exactly one is_self:true Member from self_address, all others is_self:false, and sorts by address ascending after the push; "
+          "R7 name-lookup failures under Discovery::resolve are propagated as Err (never an empty Ok list); "
           "R6 inserts take keys from incoming.difference(existing) and removes from existing.difference(incoming), so surviving peers keep their records.")
 NOT_DECIDED = "path-sensitive 'advances on every change' beyond the guards named above; DNS-dependent behaviour of is_self_address."
 
@@ -158,6 +159,18 @@ def run(F, R):
                             if t is not None and g.dominates(t, c.bb) and len(g.pred(t)) == 1:
                                 ok = True
         R.check(ok, "C15.R3", f"set_members-caller:{g.path}", why, g.loc(c.bb), dict(caller=g.path))
+
+    # ---------------- R7 lookup failures surface as Err from Discovery::resolve
+    R.rule("C15.R7", "K-ERR", "every name lookup (to_socket_addrs) in the in-crate closure of Discovery::resolve propagates its error; a swallowed failure would reach set_members as an empty Ok list and remove every member")
+    looks = []
+    for p in sorted(F.closure_of([M + "::Discovery::resolve"])):
+        for c in F.fam_calls(p):
+            if c.name.rsplit("::", 1)[-1] == "to_socket_addrs":
+                looks.append(c)
+    R.floor("C15.R7", "to_socket_addrs calls under Discovery::resolve", len(looks), 1)
+    for c in looks:
+        tags = result_consumers(c.fn, c)
+        R.check("try" in tags or "returned" in tags, "C15.R7", f"{c.fn.path}:to_socket_addrs", f"lookup failure is swallowed ({sorted(tags)}) on the discovery path", c.fn.loc(c.bb), dict(consumers=sorted(tags)))
 
     # ---------------- R4 + R6
     sm = F.fn(M + "::Membership::set_members")
